@@ -10,6 +10,8 @@
 (iii) reproducibility: the same deterministic seed gives the same candidate sequence and result whatever Python's
     global random state and whichever z3 models the backend finds."""
 import json
+import os
+import sys
 import multiprocessing as mp
 from harness.par import RobustPool
 import random
@@ -182,6 +184,31 @@ def run(tier, seed):
             chk.violation({"part": "reproducibility", "what": "depends-on-backend-model-or-global-random"},
                           "slitherlink 3x3 generator: same deterministic seed, different z3 seed / Python random state -> different run",
                           {"seed": a["seed"], "n_candidates": [len(a["cands"]), len(b["cands"])]})
+    # fresh interpreters that differ only in PYTHONHASHSEED: string / bytes clue values, the same deterministic seed
+    import subprocess
+    from harness.common import REPO, VERIF
+    from concurrent.futures import ThreadPoolExecutor
+    hseeds = [0, 1, 2, 3] if tier == "quick" else list(range(12))
+
+    def hrun(h):
+        env = dict(os.environ, PYTHONHASHSEED=str(h), PYTHONPATH=str(REPO))
+        p = subprocess.run([sys.executable, str(VERIF / "harness" / "hashseed_repro.py")], env=env, capture_output=True, text=True, timeout=600)
+        if p.returncode != 0:
+            raise MachineryError("hashseed_repro.py failed: " + p.stderr[-400:])
+        return json.loads(p.stdout)
+    with ThreadPoolExecutor(max_workers=len(hseeds)) as ex:
+        houts = list(ex.map(hrun, hseeds))
+    for h, out in zip(hseeds[1:], houts[1:]):
+        for a, b in zip(houts[0], out):
+            rep += 1
+            chk.note_case(f"repro-hashseed/{h}/{a['pattern']}/{a['seed']}", True)
+            if a != b:
+                k = next((i for i, (x, y) in enumerate(zip(a["cands"], b["cands"])) if x != y), None)
+                chk.violation({"part": "reproducibility", "what": "depends-on-interpreter-hash-seed"},
+                              f"pattern {a['pattern']} (string-valued choices): same deterministic seed {a['seed']}, interpreters with "
+                              f"PYTHONHASHSEED={hseeds[0]} and {h} -> different runs",
+                              {"pattern": a["pattern"], "seed": a["seed"], "hashseeds": [hseeds[0], h], "first_difference_at_candidate": k,
+                               "status": [a["status"], b["status"]], "result": [a["result"], b["result"]]})
     chk.extra["prng_spec_cases_replayed"] = nprng
     chk.extra["prng_real_calls_judged"] = sum(len(r["calls"]) for r in precs)
     chk.extra["generate_problem_runs_validated"] = len(ok_runs)
